@@ -692,4 +692,60 @@ theorem pctExtract_ordered (sp : Nat → Bool) (origin : Str) (nums : List ER) (
   have := pairwise_le_get _ hm.2.1 (a.start + a.len) b.start (by omega) _ _ ha2 hb1
   omega
 
+/-! ## C01 helpers -/
+
+theorem mergeInto_mem (t : Tk) : ∀ (merged : List Tk) (x : Tk), x ∈ (mergeInto merged t).1 → x ∈ merged ∨ x = t := by
+  intro merged
+  induction merged with
+  | nil => intro x hx; simp [mergeInto] at hx
+  | cons m rest ih =>
+    intro x hx
+    unfold mergeInto at hx
+    simp only at hx
+    split at hx
+    · split at hx
+      · simp only [List.mem_cons] at hx
+        rcases hx with rfl | hx
+        · exact Or.inr rfl
+        · exact Or.inl (by simp [hx])
+      · exact Or.inl hx
+    · simp only [List.mem_cons] at hx
+      rcases hx with rfl | hx
+      · exact Or.inl (by simp)
+      · rcases ih x hx with h | h
+        · exact Or.inl (by simp [h])
+        · exact Or.inr h
+
+theorem mergeStep_mem (merged : List Tk) (t x : Tk) (hx : x ∈ mergeStep merged t) : x ∈ merged ∨ x = t := by
+  unfold mergeStep at hx
+  simp only at hx
+  split at hx
+  · simp only [List.mem_append, List.mem_singleton] at hx
+    rcases hx with hx | rfl
+    · exact mergeInto_mem t merged x hx
+    · exact Or.inr rfl
+  · exact mergeInto_mem t merged x hx
+
+theorem mergeTokens_mem (ts : List Tk) (x : Tk) (hx : x ∈ mergeTokens ts) : x ∈ ts := by
+  unfold mergeTokens at hx
+  have : ∀ (l acc : List Tk), x ∈ l.foldl mergeStep acc → x ∈ acc ∨ x ∈ l := by
+    intro l
+    induction l with
+    | nil => intro acc h; exact Or.inl h
+    | cons t r ih =>
+      intro acc h
+      simp only [List.foldl_cons] at h
+      rcases ih _ h with h | h
+      · rcases mergeStep_mem acc t x h with h | rfl
+        · exact Or.inl h
+        · exact Or.inr (by simp)
+      · exact Or.inr (by simp [h])
+  rcases this _ _ hx with h | h
+  · simp at h
+  · exact (mem_sortTokens ts x).1 h
+
+theorem filterMap_runs_mem (rs : List (Nat × Nat)) (g : Nat × Nat → Option ER) (e : ER)
+    (he : e ∈ rs.filterMap g) : ∃ p ∈ rs, g p = some e := by
+  simpa [List.mem_filterMap] using he
+
 end RTV.Span
